@@ -33,6 +33,24 @@ def single_enqueue(F, R, ver):
     R.floor('C05.single-enqueue', '%s enqueue sites' % ver, n, 4)
 
 
+def pubrec_keeps_slot(F, R, ver):
+    """A QoS 2 exchange occupies its window slot until PUBCOMP: on every Ok exit of the PUBREC branch
+    of pkt_ack_inner the popped entry has been re-queued."""
+    import c06
+    b = F.one(r'^%s::shared::MqttShared::pkt_ack_inner$' % ver)
+    ack = F.adts['%s::shared::Ack' % ver]
+    ridx = [i for i, v in enumerate(ack['variants']) if v['name'] == 'Receive'][0]
+    edges = [(s_, t_) for s_, t_, lab in c06.discr_bool_edges(b, 2) if lab == 'pkt#%d' % ridx]
+    requeue = {x[0] for x in calls_on_field(b, r'VecDeque::<T, A>::push_back$', 'inflight')}
+    oks = [bi for bi, j, s in b.assigns() if s['lhs']['l'] == 0 and s['rv']['k'] == 'agg' and s['rv'].get('variant') == 'Ok']
+    in_rec = [x for x in oks if any(edge_dominates(b, s_, t_, x) for s_, t_ in edges)]
+    R.ob('C05.single-enqueue', '%s|pkt_ack_inner|PUBREC-branch-found' % ver, bool(edges) and bool(in_rec), 'could not locate the PUBREC branch (edges %d, Ok exits %d)' % (len(edges), len(in_rec)))
+    for x in in_rec:
+        ok = any(b.must_pass(requeue, x, start=t_) for s_, t_ in edges)
+        R.ob('C05.single-enqueue', '%s|pkt_ack_inner|PUBREC=>entry-stays-outstanding' % ver, ok,
+             'the PUBREC branch can finish without re-queueing the exchange (e.g. when the sender future was dropped): its window slot is freed at PUBREC although PUBREL/PUBCOMP are still outstanding, so more than `cap` exchanges are open', b.loc(x))
+
+
 def gated(F, R, ver):
     enq_sites = []
     for b in F.find(r'^(<)?%s::sink::' % ver):
@@ -222,6 +240,7 @@ def origin_field_names(F, b, op, wide, depth=0):
 def run(F, R):
     for ver in ('v3', 'v5'):
         single_enqueue(F, R, ver)
+        pubrec_keeps_slot(F, R, ver)
         gated(F, R, ver)
         check_then_act(F, R, ver)
     cap_source(F, R)
